@@ -55,6 +55,13 @@ func (r *replayer) build() error {
 	} else {
 		return err
 	}
+	if clk, err := clockOverlay(); err == nil {
+		for k, v := range clk {
+			ov[k] = v
+		}
+	} else {
+		return fmt.Errorf("clock overlay: %v", err)
+	}
 	repl := map[string]string{}
 	n := 0
 	for virt, content := range ov {
@@ -336,4 +343,44 @@ func replayMain(path string) int {
 	}
 	fmt.Println("does not reproduce on the current tree")
 	return 0
+}
+
+// clockOverlay patches the standard library's time package (in the overlay of
+// the NATIVE replay build only) so that Now, Since and Until consult a hook
+// when it is set. The harness library sets the hook to replay the clock
+// readings of the engine's model (inputs clk_N) for calls made directly by
+// repository code; every other caller keeps the real clock.
+func clockOverlay() (map[string][]byte, error) {
+	out, err := exec.Command("go", "env", "GOROOT").Output()
+	if err != nil {
+		return nil, err
+	}
+	goroot := strings.TrimSpace(string(out))
+	path := filepath.Join(goroot, "src", "time", "time.go")
+	raw, err := os.ReadFile(path)
+	if err != nil {
+		return nil, err
+	}
+	src := string(raw)
+	patch := func(sig, body string) error {
+		if !strings.Contains(src, sig) {
+			return fmt.Errorf("time.go: %q not found", sig)
+		}
+		src = strings.Replace(src, sig, sig+body, 1)
+		return nil
+	}
+	if err := patch("func Now() Time {\n", "\tif verifNow != nil {\n\t\tif t, ok := verifNow(); ok {\n\t\t\treturn t\n\t\t}\n\t}\n"); err != nil {
+		return nil, err
+	}
+	if err := patch("func Since(t Time) Duration {\n", "\tif verifNow != nil {\n\t\tif now, ok := verifNow(); ok {\n\t\t\treturn now.Sub(t)\n\t\t}\n\t}\n"); err != nil {
+		return nil, err
+	}
+	if err := patch("func Until(t Time) Duration {\n", "\tif verifNow != nil {\n\t\tif now, ok := verifNow(); ok {\n\t\t\treturn t.Sub(now)\n\t\t}\n\t}\n"); err != nil {
+		return nil, err
+	}
+	hook := "package time\n\nimport _ \"unsafe\"\n\n// verifNow, when set and answering ok, replaces the clock read by Now, Since and Until.\n//\n//go:linkname verifNow\nvar verifNow func() (Time, bool)\n"
+	return map[string][]byte{
+		path: []byte(src),
+		filepath.Join(goroot, "src", "time", "zz_verif_hook.go"): []byte(hook),
+	}, nil
 }
